@@ -168,6 +168,68 @@ def trace_words():
     return out
 
 
+def trace_driver(event):
+    """Wiring of the stepping loops `_integrate_symplectic` / `_integrate_symplectic_until_event` over a non-uniform 4-node grid with
+    the step function and the omega heuristic rebound to recorders.  Slots are numbered: initial state Q,P -> 0..5; output slot j of step k
+    (1-based) -> 12*k + j.  Returns (inputs per step, (dt index used for omega, dt index used for the step), trajectory rows)."""
+    from hiten.algorithms.integrators import symplectic as sy
+    T.reset()
+    z = T.symarray([T.Sym.var("z%d" % i, 0.1 + 0.05 * i) for i in range(6)])
+    hs = [T.Sym.var("h%d" % i, 0.1 * (i + 1)) for i in range(3)]
+    t0 = T.Sym.var("t0", 0.0)
+    tv = T.symarray([t0, t0 + hs[0], t0 + hs[0] + hs[1], t0 + hs[0] + hs[1] + hs[2]])
+    calls = []
+    oms = []
+
+    def slot(v):
+        v = T.Sym.lift(v)
+        if v.op == "var" and v.args[0][0] == "z":
+            return int(v.args[0][1:])
+        if v.op == "var" and v.args[0][0] == "s":
+            k, j = v.args[0][1:].split("_")
+            return 12 * int(k) + int(j)
+        return 9999
+
+    def dtidx(x):
+        nf = T.polynf(T.Sym.lift(x))
+        for i in range(3):
+            if nf == {(("h%d" % i, 1),): 1}:
+                return i
+        return 99
+
+    def tao(dt, order, c):
+        oms.append(dtidx(dt))
+        return T.Sym.var("om%d" % (len(oms) - 1), 3.0 + len(oms))
+
+    def rec(q, dt, order, om, jac, clmo):
+        k = len(calls) + 1
+        omi = int(T.Sym.lift(om).args[0][2:]) if T.Sym.lift(om).op == "var" and str(T.Sym.lift(om).args[0]).startswith("om") else 99
+        calls.append(([slot(v) for v in q], oms[omi] if omi < len(oms) else 99, dtidx(dt), int(order)))
+        for j in range(12):
+            q[j] = T.Sym.var("s%d_%d" % (k, j), 0.01 * k + 0.001 * j)
+
+    extra = {"_get_tao_omega": tao, "_recursive_update_poly": rec, "len": lambda a: len(a)}
+    shim = T.ShimNP()
+
+    class Shim3:
+        def __getattr__(self, n):
+            return getattr(shim, n)
+
+        def diff(self, a):
+            return T.symarray([a[i + 1] - a[i] for i in range(len(a) - 1)])
+
+    if not event:
+        f = T.retarget(sy._integrate_symplectic, extra, shim=Shim3())
+        traj = f(z, tv, None, None, 4, 20.0)
+    else:
+        extra.update({"_eval_hamiltonian_derivative": lambda Q, P, j, c: T.symarray([T.Sym.const(0)] * 6),
+                      "_event_crossed": lambda a, b, d: False})
+        f = T.retarget(sy._integrate_symplectic_until_event, extra, shim=Shim3())
+        hit, th, yh, traj = f(z, tv, None, None, 4, (lambda t, y: 1.0), 0, 1e-12, 1e-12, 20.0)
+    rows = [[slot(traj[r, c]) for c in range(6)] for r in range(traj.shape[0])]
+    return [c[0] for c in calls], [(c[1], c[2], c[3]) for c in calls], rows
+
+
 def gen(ctx):
     from hiten.algorithms.integrators import symplectic as sy
     txt = E.header("C16", imports=("HitenModel.Core.Dy", "HitenModel.Core.RE"), note="traced from integrators/symplectic.py")
@@ -202,6 +264,15 @@ def gen(ctx):
     except Exception as ex:
         ctx.broken.append(("trace:composition-word", repr(ex)))
         ctx.obligations["trace:composition-word"] = False
+    for tag, ev in (("plain", False), ("event", True)):
+        try:
+            ins, dts, rows = trace_driver(ev)
+            txt += "def driver_%s_inputs : List (List Nat) := %s\n" % (tag, ins)
+            txt += "def driver_%s_dt : List (Nat × Nat × Nat) := [%s]\n" % (tag, ", ".join("(%d, %d, %d)" % d for d in dts))
+            txt += "def driver_%s_rows : List (List Nat) := %s\n" % (tag, rows)
+        except Exception as ex:
+            ctx.broken.append(("trace:driver-" + tag, repr(ex)))
+            ctx.obligations["trace:driver-" + tag] = False
     # omega heuristic as RE over (delta=0, c=1) for the supported orders
     txt += "open RE\n"
     for order in (2, 4, 6, 8):
@@ -308,6 +379,30 @@ def numerics(ctx):
                     ctx.violation("order:%d" % order, "order-%d scheme converges at rate %.2f at fixed omega" % (order, max(rates)),
                                   {"hamiltonian": {str(k): v for k, v in hd.items()}, "order": order, "N": Ns, "errors": errs, "rates": rates, "omega": om, "T": Tend})
                     return
+        # --- the stepping loops: retracing a non-uniform grid restores the state; the event-enabled loop takes the same steps ---
+        zz = np.array([0.2, 0.1, -0.15, 0.05, -0.1, 0.12])
+        tv = np.array([0.0, 0.1, 0.15, 0.32, 0.15, 0.1, 0.0])
+        traj = sy._integrate_symplectic(zz, tv, jac_H, clmo_H, 4, 20.0)
+        rt = float(np.abs(traj[-1] - zz).max())
+        ctx.case((hname, "retrace"), nontrivial=True, kind="driver-retrace", sample={"H": hname, "grid": tv.tolist(), "return_error": rt})
+        if not rt <= 1e-11:
+            ctx.violation("driver-not-reversible", "retracing the non-uniform grid %s with the stepping loop does not restore the state (error %g)" % (tv.tolist(), rt),
+                          {"hamiltonian": {str(k): v for k, v in hd.items()}, "state": zz.tolist(), "grid": tv.tolist(), "order": 4, "error": rt})
+            return
+        import numba
+
+        @numba.njit
+        def never(t, y):
+            return 1.0 + y[0] * 0.0
+        tv2 = np.linspace(0.0, 6.0, 301)
+        plain = sy._integrate_symplectic(zz, tv2, jac_H, clmo_H, 4, 20.0)
+        hit, th, yh, trj = sy._integrate_symplectic_until_event(zz, tv2, jac_H, clmo_H, 4, never, 0, 1e-12, 1e-12, 20.0)
+        dev = float(np.abs(np.asarray(trj)[-1] - plain[-1]).max())
+        ctx.case((hname, "event-loop"), nontrivial=True, kind="driver-event-vs-plain", sample={"H": hname, "steps": 300, "deviation": dev})
+        if hit or not dev <= 1e-12:
+            ctx.violation("event-loop-differs", "with an event that never fires the event-enabled stepping loop ends %g away from the plain loop" % dev,
+                          {"hamiltonian": {str(k): v for k, v in hd.items()}, "state": zz.tolist(), "t_end": 6.0, "steps": 300, "deviation": dev, "hit": bool(hit)})
+            return
         # --- long-run energy (bounded, no drift) through the public integrator ------------------------------------
         from hiten.algorithms.integrators.symplectic import _ExtendedSymplectic
         z = np.array([0.2, 0.1, -0.15, 0.05, -0.1, 0.12])
